@@ -84,3 +84,79 @@ def extract():
 
 if __name__ == "__main__":
     print(extract())
+
+
+# ---------------------------------------------------------------------------------------------------------------------
+# the mailbox queue (QueueRA.tla)
+QUEUE = REPO + "/nexosim/src/channel/queue.rs"
+
+_ATOMIC = re.compile(r"(enqueue_pos|dequeue_pos|stamp)\s*\.\s*(load|store|compare_exchange_weak|compare_exchange|"
+                     r"fetch_or|fetch_add|swap)\s*\(", re.S)
+
+
+def _atomics(body):
+    """[(location, operation, [orderings], offset)] in source order"""
+    out = []
+    for m in _ATOMIC.finditer(body):
+        # arguments up to the matching parenthesis
+        depth, k = 1, m.end()
+        while k < len(body) and depth:
+            depth += body[k] == "("
+            depth -= body[k] == ")"
+            k += 1
+        out.append((m.group(1), m.group(2), re.findall(r"Ordering::(\w+)", body[m.end():k]), m.start()))
+    return out
+
+
+def _ord2(tok, kind):
+    t = {"Relaxed": "rlx", "Acquire": "acq", "Release": "rel", "AcqRel": "acqrel", "SeqCst": "acqrel"}.get(tok)
+    if t is None:
+        raise ToolError(f"specification out of date: unknown ordering {tok}")
+    if kind == "load" and t == "acqrel":
+        t = "acq"
+    if kind == "store" and t == "acqrel":
+        t = "rel"
+    return t
+
+
+def extract_queue():
+    src = _strip_comments(open(QUEUE).read())
+    push = _body(src, "fn push<F>(&self")
+    pop = _body(src, "unsafe fn pop(&self")
+    drop = _body(src, "Drop for MessageBorrow")
+    for name, b in (("push", push), ("pop", pop), ("MessageBorrow::drop", drop)):
+        if re.search(r"\bfence\s*\(", b):
+            raise ToolError(f"specification out of date: Queue::{name} now contains a fence (QueueRA.tla has none)")
+    a_push, a_pop, a_drop = _atomics(push), _atomics(pop), _atomics(drop)
+    shape = lambda a: [(x[0], x[1].replace("_weak", "")) for x in a]
+    if shape(a_push) != [("enqueue_pos", "load"), ("stamp", "load"), ("enqueue_pos", "compare_exchange"),
+                         ("stamp", "store"), ("enqueue_pos", "load")]:
+        raise ToolError(f"specification out of date: the atomic operations of Queue::push changed: {shape(a_push)}")
+    if shape(a_pop)[:3] != [("dequeue_pos", "load"), ("stamp", "load"), ("dequeue_pos", "store")] or \
+            any(x[0] == "stamp" for x in a_pop[2:]):
+        raise ToolError(f"specification out of date: the atomic operations of Queue::pop changed: {shape(a_pop)}")
+    if shape(a_drop) != [("stamp", "store")]:
+        raise ToolError(f"specification out of date: the atomic operations of MessageBorrow::drop changed: {shape(a_drop)}")
+    # plain accesses to the message cell relative to the stamp operations
+    w_push = push.find("message")
+    w_drop = drop.find(".message")
+    r_pop = pop.find(".message")
+    if w_push < 0 or w_drop < 0 or r_pop < 0:
+        raise ToolError("specification out of date: the accesses to the message cell were not found")
+    if not (a_push[2][3] < w_push):
+        raise ToolError("specification out of date: Queue::push touches the message cell before reserving the position")
+    if not (a_pop[1][3] < r_pop):
+        raise ToolError("specification out of date: Queue::pop touches the message cell before loading the stamp")
+    # the reload of the position after a lagging read must be at least as strong as the first load for the model's
+    # single OPLoadPos (both Relaxed in the code): take the weaker
+    lp = {_ord2(a_push[0][2][0], "load"), _ord2(a_push[4][2][0], "load")}
+    return dict(
+        OPLoadPos="rlx" if "rlx" in lp else "acq",
+        OPLoadStamp=_ord2(a_push[1][2][0], "load"),
+        OPCas=_ord2(a_push[2][2][0], "rmw"),
+        OPStoreStamp=_ord2(a_push[3][2][0], "store"),
+        OCLoadStamp=_ord2(a_pop[1][2][0], "load"),
+        OCStoreStamp=_ord2(a_drop[0][2][0], "store"),
+        PushPublishesLast=w_push < a_push[3][3],
+        DropPublishesLast=w_drop < a_drop[0][3],
+    )
